@@ -128,6 +128,21 @@ assert old in s
 open(p,'w').write(s.replace(old,new))
 EOF
   ;;
+5)
+  # C12: rollback_block_to leaves the stale key||height entries in the historical duplicate columns
+  python3 - <<EOF
+p='$S/state/historical_rocksdb.rs'
+s=open(p).read()
+old="""        remove_historical_modifications(
+            &height_to_rollback,
+            &mut storage_transaction,
+            &last_changes,
+        )?;
+"""
+assert s.count(old)==1
+open(p,'w').write(s.replace(old,""))
+EOF
+  ;;
 esac
 git -C $WT diff --stat
 export VERIF_REPO_OVERRIDE=$WT
